@@ -337,7 +337,7 @@ theorem entry_roundtrip_rs (hrtx : TextRT) (items : List Record) (ty : Nat → O
     (hk : kindOf items e.uid = some k) (hty : ty e.uid = e.typif) (hrs : isRSObject k = true)
     (hv : ∀ τ v, e.typif = some τ → e.sdata = some v → ValOK τ v)
     (ht : ∀ t, e.texts = some t → isBaseSet k = true ∧ Contiguous t) :
-    ∃ j, e.toJson k = some j ∧ decodeEntry items ty j = some (updOf k e) := by
+    ∃ j, e.toJson k = some j ∧ decodeEntry items ty j = some (some (updOf k e)) := by
   rcases hty' : e.typif with _ | τ
   · -- no typification: no value
     rcases htx : e.texts with _ | t
@@ -383,7 +383,7 @@ theorem entry_roundtrip_rs (hrtx : TextRT) (items : List Record) (ty : Nat → O
 
 theorem entry_roundtrip_other (items : List Record) (ty : Nat → Option Ty) (k : CstType) (e : DataEntry)
     (hk : kindOf items e.uid = some k) (hrs : isRSObject k = false) :
-    ∃ j, e.toJson k = some j ∧ decodeEntry items ty j = some (updOf k e) := by
+    ∃ j, e.toJson k = some j ∧ decodeEntry items ty j = some (some (updOf k e)) := by
   cases hc : isCallable k
   · rcases hs : e.stmt with _ | b
     · refine ⟨_, by simp [DataEntry.toJson, hrs, hc, hs]; rfl, ?_⟩
@@ -413,7 +413,7 @@ abbrev EntryWF := EntryWFk Contiguous
 
 theorem entry_roundtrip (hrtx : TextRT) (items : List Record) (ty : Nat → Option Ty) (r : Record) (e : DataEntry)
     (hk : kindOf items e.uid = some r.type) (hty : ty e.uid = e.typif) (hw : EntryWF r e) :
-    ∃ j, e.toJson r.type = some j ∧ decodeEntry items ty j = some (updOf r.type e) := by
+    ∃ j, e.toJson r.type = some j ∧ decodeEntry items ty j = some (some (updOf r.type e)) := by
   cases hrs : isRSObject r.type
   · exact entry_roundtrip_other items ty r.type e hk hrs
   · apply entry_roundtrip_rs hrtx items ty r.type e hk hty hrs
@@ -609,7 +609,7 @@ theorem model_roundtrip_core (hrtx : TextRT) (env : Env) (c : Model) (h : c.WF) 
     rw [this]; exact ⟨hf, hre, hw⟩
   -- the data array
   obtain ⟨ds, hds1, hds2⟩ := mapM_roundtrip (fun e : DataEntry => (kindOf c.items e.uid) >>= (e.toJson ·))
-    (decodeEntry c.items ty) (fun e => updOf (recOf e).type e) c.data (by
+    (decodeEntry c.items ty) (fun e => some (updOf (recOf e).type e)) c.data (by
       intro e he
       obtain ⟨hf, hre, hw⟩ := hrec e he
       have hk : kindOf c.items e.uid = some (recOf e).type := by simp [kindOf, hf]
@@ -646,8 +646,108 @@ theorem model_roundtrip_core (hrtx : TextRT) (env : Env) (c : Model) (h : c.WF) 
   simp only [List.nil_append] at hfold
   rw [hrestore] at hfold
   simp only [ty] at hstore hds2
+  have hfm : (c.data.map fun e => some (updOf (recOf e).type e)).filterMap id =
+      c.data.map fun e => updOf (recOf e).type e := by
+    rw [List.filterMap_map]
+    induction c.data with
+    | nil => rfl
+    | cons x xs ih => simp [List.filterMap_cons, ih]
   simp only [Model.fromJson, optStr, g1, g2, g3, g4, g5, Json.asStr, Option.bind_eq_bind, Option.bind_some,
-    Option.pure_def, hl, loadData, hstore, Json.asArr, hds2, hfold]
+    Option.pure_def, hl, loadData, hstore, Json.asArr, hds2, hfm, hfold]
+
+/-! ### data elements the loader ignores (after the /repo repair of `LoadData`) -/
+
+theorem kindOf_none (items : List Record) (u : Nat) (hn : ∀ r ∈ items, r.uid ≠ u) : kindOf items u = none := by
+  unfold kindOf
+  have : items.find? (·.uid == u) = none := by
+    rw [List.find?_eq_none]; intro r hr; simpa using hn r hr
+  rw [this]; rfl
+
+/-- an element whose uid is not a uid of the items is skipped, whatever else it contains -/
+theorem decodeEntry_unknown (items : List Record) (ty : Nat → Option Ty) (j : Json) (u : Nat)
+    (hu : (j.get "entityUID") >>= asNat = some u) (hn : ∀ r ∈ items, r.uid ≠ u) :
+    decodeEntry items ty j = some none := by
+  unfold decodeEntry
+  rw [hu]
+  simp [kindOf_none items u hn]
+
+theorem mapM_insert {α β : Type} (f : α → Option β) (pre post : List α) (x : α) :
+    (pre ++ x :: post).mapM f =
+      (pre.mapM f).bind fun a => (f x).bind fun b => (post.mapM f).bind fun c => some (a ++ b :: c) := by
+  rw [List.mapM_append, List.mapM_cons]
+  cases pre.mapM f <;> cases f x <;> cases post.mapM f <;> simp
+
+theorem mapM_append' {α β : Type} (f : α → Option β) (pre post : List α) :
+    (pre ++ post).mapM f = (pre.mapM f).bind fun a => (post.mapM f).bind fun c => some (a ++ c) := by
+  rw [List.mapM_append]
+  cases pre.mapM f <;> cases post.mapM f <;> simp
+
+theorem loadData_unknown_ignored' (items : List Record) (ty : Nat → Option Ty) (pre post : List Json) (j : Json)
+    (u : Nat) (hu : (j.get "entityUID") >>= asNat = some u) (hn : ∀ r ∈ items, r.uid ≠ u) :
+    loadData items ty (.arr (pre ++ j :: post)) = loadData items ty (.arr (pre ++ post)) := by
+  unfold loadData
+  simp only [Json.asArr, Option.bind_eq_bind, Option.bind_some]
+  rw [mapM_insert, mapM_append', decodeEntry_unknown items ty j u hu hn]
+  cases (sortUids (items.map (·.uid))).mapM (resetFor items ty) <;>
+    cases pre.mapM (decodeEntry items ty) <;> cases post.mapM (decodeEntry items ty) <;> simp
+
+/-- the document element without the key `k` -/
+def dropKey (k : String) : Json → Json
+  | .obj kvs => .obj (kvs.filter (fun kv => kv.1 != k))
+  | j => j
+
+theorem get_dropKey_ne (k k' : String) (h : k' ≠ k) (j : Json) : (dropKey k j).get k' = j.get k' := by
+  cases j with
+  | obj kvs =>
+    simp only [dropKey, Json.get]
+    congr 1
+    induction kvs with
+    | nil => rfl
+    | cons kv kvs ih =>
+      obtain ⟨a, v⟩ := kv
+      by_cases hk : a = k
+      · subst hk
+        have hne : (a == k') = false := by
+          simp only [beq_eq_false_iff_ne, ne_eq]; exact fun e => h e.symm
+        simp only [List.filter_cons, bne_self_eq_false, Bool.false_eq_true, if_false, List.find?_cons, hne]
+        exact ih
+      · have hk2 : (a != k) = true := by simpa using hk
+        simp only [List.filter_cons, hk2, if_true, List.find?_cons]
+        cases (a == k')
+        · exact ih
+        · rfl
+  | _ => rfl
+
+theorem get_dropKey_self (k : String) (j : Json) : (dropKey k j).get k = none := by
+  cases j with
+  | obj kvs =>
+    simp only [dropKey, Json.get]
+    have : (kvs.filter (fun kv => kv.1 != k)).find? (fun kv => kv.1 == k) = none := by
+      rw [List.find?_eq_none]; intro x hx; simp at hx; simpa using hx.2
+    rw [this]; rfl
+  | _ => rfl
+
+/-- the `texts` of an element for a constituent that is not a base set are not looked at -/
+theorem decodeEntry_texts_nonbase (items : List Record) (ty : Nat → Option Ty) (j : Json) (u : Nat) (kind : CstType)
+    (hu : (j.get "entityUID") >>= asNat = some u) (hk : kindOf items u = some kind) (hb : isBaseSet kind = false) :
+    decodeEntry items ty j = decodeEntry items ty (dropKey "texts" j) := by
+  unfold decodeEntry
+  rw [get_dropKey_ne "texts" "entityUID" (by decide), get_dropKey_ne "texts" "wasCalculated" (by decide),
+    get_dropKey_ne "texts" "value" (by decide), get_dropKey_self, hu]
+  simp only [Option.bind_eq_bind, Option.bind_some, hk, hb]
+  cases j.get "texts" <;> rfl
+
+theorem mapM_congr_at {α β : Type} (f : α → Option β) (pre post : List α) (x y : α) (h : f x = f y) :
+    (pre ++ x :: post).mapM f = (pre ++ y :: post).mapM f := by
+  rw [mapM_insert, mapM_insert, h]
+
+theorem loadData_texts_nonbase_ignored' (items : List Record) (ty : Nat → Option Ty) (pre post : List Json) (j : Json)
+    (u : Nat) (kind : CstType) (hu : (j.get "entityUID") >>= asNat = some u) (hk : kindOf items u = some kind)
+    (hb : isBaseSet kind = false) :
+    loadData items ty (.arr (pre ++ j :: post)) = loadData items ty (.arr (pre ++ dropKey "texts" j :: post)) := by
+  unfold loadData
+  simp only [Json.asArr, Option.bind_eq_bind, Option.bind_some]
+  rw [mapM_congr_at _ pre post j (dropKey "texts" j) (decodeEntry_texts_nonbase items ty j u kind hu hk hb)]
 
 /-- loader inputs answering with the derived fields of a given content (satisfiability of
 `Updated` / `ModelUpdated`) -/
